@@ -99,6 +99,9 @@ def _format_content_disposition(
     #   Include a "filename" parameter when US-ASCII ([US-ASCII]) is
     #   sufficiently expressive.
     if value.isascii():
+        # NOTE: the filename is emitted as a quoted-string (RFC 9110, Section
+        #   5.6.4), in which a backslash or a double quote must be escaped.
+        value = value.replace('\\', '\\\\').replace('"', '\\"')
         return '%s; filename="%s"' % (disposition_type, value)
 
     # NOTE(vytas): RFC 6266, Appendix D.
